@@ -148,6 +148,10 @@ func (ds *NativeSM) Loaded() {
 
 // Close closes the underlying user state machine and set the destroyed flag.
 func (ds *NativeSM) Close() error {
+	// Lookup holds the read lock, the state machine must not be closed while
+	// a Lookup is in progress
+	ds.mu.Lock()
+	defer ds.mu.Unlock()
 	if err := ds.sm.Close(); err != nil {
 		return err
 	}
